@@ -112,6 +112,16 @@ func (l *Linter) lintDeclareStatement(stmt *ast.DeclareStatement, ctx *context.C
 			Message:  err.Error(),
 		}
 		l.Error(err.Match(DECLARE_STATEMENT_DUPLICATED))
+	} else if l.ignore.IsEnable(UNUSED_VARIABLE) {
+		// Check ignored UNUSED_VARIABLE rule and mark as used,
+		// the unused variables are reported after the subroutine has been linted
+		if v, ok := ctx.Variables["var"]; ok {
+			if names := strings.Split(stmt.Name.Value, "."); len(names) > 1 {
+				if o, ok := v.Items[names[1]]; ok {
+					o.IsUsed = true
+				}
+			}
+		}
 	}
 
 	// Lint the value expression if present
